@@ -159,6 +159,17 @@ var gmpMu sync.Mutex
 // runChain parses text afresh (processors keep state inside the parsed options), wires it to the
 // synthetic upstream(s) described by p and drains the last processor.
 func runChain(text string, tb *Table, p Partition) (res runResult) {
+	return runChainOpts(text, tb, p, runOpts{})
+}
+
+// runOpts: raw != nil serves that materialised table (one batch, topology "single") instead of tb;
+// collect != nil receives the output cells exactly as the last processor hands them out.
+type runOpts struct {
+	raw     *rawTable
+	collect *rawTable
+}
+
+func runChainOpts(text string, tb *Table, p Partition, opts runOpts) (res runResult) {
 	defer func() {
 		if r := recover(); r != nil {
 			res.Err = fmt.Sprintf("PANIC: %v\n%s", r, debug.Stack())
@@ -204,6 +215,9 @@ func runChain(text string, tb *Table, p Partition) (res runResult) {
 		var ups []*processor.CachedStream
 		for s := range p.Cuts {
 			ups = append(ups, cached(newStream(streamRows[s], p.Cuts[s])))
+		}
+		if opts.raw != nil {
+			ups = []*processor.CachedStream{cached(&rawStream{rt: opts.raw})}
 		}
 		if len(ups) > 1 {
 			dps[0].SetMergeSettingsBasedOnStream(nil) // default: merge by timestamp, newest first
@@ -296,6 +310,12 @@ func runChain(text string, tb *Table, p Partition) (res runResult) {
 			return
 		}
 		if out != nil {
+			if opts.collect != nil {
+				if cerr := opts.collect.appendIQR(out); cerr != nil {
+					res.Err = "reading output: " + cerr.Error()
+					return
+				}
+			}
 			rows, odd, rerr := readIQR(out)
 			if rerr != nil {
 				res.Err = "reading output: " + rerr.Error()
